@@ -215,7 +215,7 @@ def run_c03(tier, t0):
                 jobs.append((tag, case, os.path.join(out, "final_%d.c3d" % case), os.path.join(out, "final_%d.json" % case), fl.get("gaps") == "1"))
             first += cnt
         # (c) residue sweep, fresh and loaded objects
-        for variant in (0, 1):
+        for variant in (0, 1, 3):
             out = os.path.join(wd, "residue%d" % variant)
             C.run_driver(exe, "residue", nres, out, args=["--variant", str(variant)])
             R = C.parse_out(out)
@@ -229,7 +229,7 @@ def run_c03(tier, t0):
                     jobs.append(("residue%d" % variant, case, os.path.join(out, "res_%d.c3d" % case), os.path.join(out, "res_%d.json" % case), False))
         with Pool(C.NCPU) as pool:
             res = pool.map(_c03_one, jobs, chunksize=8)
-        residues = {0: set(), 1: set()}
+        residues = {0: set(), 1: set(), 3: set()}
         blocks = collections.Counter()
         checked = collections.Counter()
         shapes = set()
@@ -252,18 +252,18 @@ def run_c03(tier, t0):
                     if R.workload["profile"] == tag:
                         v["workload"] = R.workload
                 viols.append(v)
-        exhaustive = all(len(residues[v]) == 512 for v in (0, 1))
+        exhaustive = all(len(residues[v]) == 512 for v in (0, 1, 3))
         samples = [dict(kind=j[0], case=j[1], file=os.path.basename(j[2])) for j in jobs[:3]] + [dict(kind="residue sweep", fillers="8 filler parameters, total extra bytes = case index", residues_seen_fresh=len(residues[0]), residues_seen_loaded=len(residues[1]))]
         cov = dict(evaluations=sum(checked.values()), distinct_nontrivial=len(shapes),
                    rule="every saved file is decoded by the pointer-following reference decoder and checked for exact pointers, next-offsets, terminator, padding, block count, header/parameter agreement, data length, upper-case names, lock flags and content == memory; distinct = distinct (parameter-section residue mod 512, block count) pairs per workload kind",
-                   samples=samples, files_checked_by_kind=dict(checked), residues_mod_512_seen={"fresh": len(residues[0]), "loaded": len(residues[1])},
+                   samples=samples, files_checked_by_kind=dict(checked), residues_mod_512_seen={"fresh": len(residues[0]), "loaded": len(residues[1]), "fresh_without_data_section": len(residues[3])},
                    parameter_block_counts_seen=dict(blocks), exhaustive=exhaustive,
                    exhaustive_scope="the 512 residues of the parameter-section length modulo 512 (fresh and loaded objects); histories are sampled",
                    skipped_histories=sum(1 for k, (saved, fl) in flags.items() if fl.get("offSpec") == "1" or fl.get("managedEdited") == "1"))
         inconc = None
         if not exhaustive:
             inconc = "residue sweep incomplete: %d/%d residues" % (len(residues[0]), len(residues[1]))
-        if sum(checked.values()) < 0.7 * (nh + 2 * nres):
+        if sum(checked.values()) < 0.7 * (nh + 3 * nres):
             inconc = "too few files checked (%d)" % sum(checked.values())
 
         def rinfo(v):
